@@ -218,6 +218,17 @@ def check_scope(case, before, after, mod, names_all):
     return changed, included
 
 
+def approx_equal(a, b, eps=1e-6):
+    """structural equality with floats compared up to eps (the two filter variants compose nested offsets in a different order of additions)"""
+    if isinstance(a, (int, float)) and isinstance(b, (int, float)) and not isinstance(a, bool) and not isinstance(b, bool):
+        return abs(a - b) <= eps * max(1.0, abs(a), abs(b))
+    if isinstance(a, dict) and isinstance(b, dict):
+        return a.keys() == b.keys() and all(approx_equal(a[k], b[k], eps) for k in a)
+    if isinstance(a, (list, tuple)) and isinstance(b, (list, tuple)):
+        return len(a) == len(b) and all(approx_equal(x, y, eps) for x, y in zip(a, b))
+    return a == b
+
+
 def filter_state(flt):
     """canonical value of every attribute of the filter object except the per-call 'context' (callables by identity)"""
     out = {}
@@ -277,7 +288,7 @@ def run_case(case, ctx):
                 # mixed glyphs (own contours + components) are left out: the two variants differ in whether they look inside them,
                 # and the statement does not say which is right
                 mixed = {n for n, g in before[i].items() if g["contours"] and g["components"]}
-                diff = sorted(n for n in set(a1) | set(after[i]) if a1.get(n) != after[i].get(n) and n not in mixed)
+                diff = sorted(n for n in set(a1) | set(after[i]) if not approx_equal(a1.get(n), after[i].get(n)) and n not in mixed)
                 if diff:
                     raise Violation("interpolatable filter result for a master differs from the plain filter applied to that master", filter=case["filter"], master=i, glyphs_differing=diff)
         # reuse on swapped masters vs fresh
